@@ -626,15 +626,15 @@ def run(ck: core.Check):
         # (the full thorough counts would take the quick tier far beyond its time budget on a loaded machine)
         return t if ck.thorough else (min(t, int(q * 2.5)) if escalated else q)
 
-    n_oracle = pick(350, 6000)
+    n_oracle = pick(450, 6000)
     n_collect = pick(220, 4000)
     n_sem = pick(150, 2500)
     tasks = ([(ck.seed, i, "oracle") for i in range(n_oracle)]
              + [(ck.seed, 10**6 + i, "collect") for i in range(n_collect)]
              + [(ck.seed, 2 * 10**6 + i, "sem") for i in range(n_sem)])
-    n_cf = len(CF.HAND_CASES) + pick(120, 2500)
+    n_cf = len(CF.HAND_CASES) + pick(160, 2500)
     tasks += [(ck.seed, 3 * 10**6 + i, "cf") for i in range(n_cf)]
-    n_fh = len(FH.HAND_CASES) + pick(80, 1500)
+    n_fh = len(FH.HAND_CASES) + pick(120, 1500)
     tasks += [(ck.seed, 4 * 10**6 + i, "fhist") for i in range(n_fh)]
     results = L.robust_map(case_worker, tasks, min(14, mp.cpu_count()), core.WORK)
     rng = ck.rng
